@@ -80,6 +80,18 @@ def compose_job(cfg):
     ids = list(range(docs.CLASS_COUNT[n]))
     rnd.shuffle(ids)
     ids = ids[:3 if quick else 12] + [docs.CLASS_COUNT[n] - 1]
+    # gate vocabulary coverage: every multi-qubit gate name that occurs in a table circuit of this configuration is presented with every measured-qubit list
+    # (a mapping slip in the handling of ONE gate name shows only on the classes whose circuit uses it): up to 4 classes per gate name, SWAP classes first
+    import htstabilizer.circuit_lookup as cl
+    by_name = {}
+    for k in range(docs.CLASS_COUNT[n]):
+        toks, _ = adapt.read_tokens(cl.stabilizer_circuit_lookup(n, conn, k).circuit_string)
+        for nm in {t[0] for t in toks if len(t[1]) > 1}:
+            by_name.setdefault(nm, []).append(k)
+    for nm, ks in sorted(by_name.items()):
+        rnd.shuffle(ks)
+        ids += ks[:4 if quick else 12]
+    ids = list(dict.fromkeys(ids))
     from qiskit import QuantumRegister
     for ql in lists:
         N = n if ql is None else max(max(ql) + 1, n)
